@@ -361,6 +361,30 @@ theorem holdsFrom_windows (s e dur hop : Rat) (incl : Bool) :
     · have e : i + (p :: ps).length = i + 1 + ps.length := by simp; omega
       rw [e]; exact b
 
+/-- the lattice point at or just below `x` (in units of `hop`) -/
+theorem floor_toNat_bounds (x hop : Rat) (hh : 0 < hop) (hx : 0 ≤ x) :
+    ((x / hop).floor.toNat : Rat) * hop ≤ x ∧ x < (((x / hop).floor.toNat : Rat) + 1) * hop := by
+  have hq : 0 ≤ x / hop := by
+    apply Rat.not_lt.1
+    intro hneg
+    have := (Rat.div_lt_iff hh).1 hneg
+    grind
+  have hf0 : 0 ≤ (x / hop).floor := Rat.le_floor_iff.2 (by simpa using hq)
+  have hcast : (((x / hop).floor.toNat : Nat) : Rat) = ((x / hop).floor : Rat) := by
+    have : (((x / hop).floor.toNat : Nat) : Int) = (x / hop).floor := Int.toNat_of_nonneg hf0
+    exact_mod_cast this
+  have hmul : x / hop * hop = x := by rw [Rat.div_mul_cancel]; grind
+  rw [hcast]
+  constructor
+  · have := Rat.mul_le_mul_of_nonneg_right (Rat.floor_le (x / hop)) (Rat.le_of_lt hh)
+    grind
+  · have h3 := Rat.lt_floor_add_one (x / hop)
+    have h4 : ((((x / hop).floor + 1 : Int)) : Rat) = ((x / hop).floor : Rat) + 1 := by norm_cast
+    rw [h4] at h3
+    have := Rat.mul_lt_mul_of_pos_right h3 hh
+    grind
+
+
 /-- two lists that agree up to the first `c` -/
 theorem split_at {c : Char} : ∀ (l1 l1' l2 l2' : List Char), c ∉ l1 → c ∉ l1' →
     l1 ++ c :: l2 = l1' ++ c :: l2' → l1 = l1' ∧ l2 = l2' := by
